@@ -138,6 +138,20 @@ type WritersSpec struct {
 	File  string
 }
 
+// FieldWriteContract: an obligation at every store to a struct field (in the packages / functions
+// it is scoped to): `v` is the value stored, `base` the object.
+type FieldWriteContract struct {
+	Type     string // type key, e.g. net/http.Request
+	Field    string
+	Name     string
+	Pkg      string
+	Props    []string
+	In       []string
+	InFunc   *regexp.Regexp
+	Requires []*Clause
+	File     string
+}
+
 type GhostVar struct {
 	Name string
 	Type ast.Expr
@@ -154,6 +168,7 @@ type ContractDB struct {
 	Funcs     map[string]*FuncContract
 	FuncList  []*FuncContract
 	Writers   []*WritersSpec
+	FieldWrites []*FieldWriteContract
 	Callsites []*CallsiteContract
 	Lemmas    []*Lemma
 	Monitors  []*Monitor
@@ -307,7 +322,7 @@ func splitTop(s string, sep byte) []string {
 }
 
 func parseSpecExpr(text string) (ast.Expr, error) {
-	t := strings.ReplaceAll(text, "$", "G_")
+	t := replaceDollarOutsideStrings(text)
 	t = rewriteImpl(t)
 	e, err := parser.ParseExpr(t)
 	if err != nil {
@@ -360,10 +375,11 @@ func (db *ContractDB) loadContractFile(path, pkg string) error {
 	var curM *Monitor
 	var curLoop *LoopSpec
 	var curW *WritersSpec
+	var curFW *FieldWriteContract
 	var pending string
 	var pendingLn int
 	ln := 0
-	reset := func() { curF, curC, curL, curM, curLoop, curW = nil, nil, nil, nil, nil, nil }
+	reset := func() { curF, curC, curL, curM, curLoop, curW, curFW = nil, nil, nil, nil, nil, nil, nil }
 	handle := func(line string, ln int) error {
 		pos := fmt.Sprintf("%s:%d", filepath.Base(filepath.Dir(path))+"/"+filepath.Base(path), ln)
 		fields := strings.Fields(line)
@@ -452,6 +468,16 @@ func (db *ContractDB) loadContractFile(path, pkg string) error {
 			}
 			db.Axioms = append(db.Axioms, c)
 			db.AxiomPkg = append(db.AxiomPkg, pkg)
+		case "fieldwrite":
+			reset()
+			// fieldwrite <type>.<field>
+			t := expandModRel(strings.TrimSpace(rest))
+			i := strings.LastIndex(t, ".")
+			if i < 0 {
+				return fmt.Errorf("%s: fieldwrite needs <type>.<field>", pos)
+			}
+			curFW = &FieldWriteContract{Type: t[:i], Field: t[i+1:], Pkg: pkg, File: pos, Name: t}
+			db.FieldWrites = append(db.FieldWrites, curFW)
 		case "writers":
 			reset()
 			curW = &WritersSpec{Key: expandModRel(strings.TrimSpace(rest)), Pkg: pkg, File: pos}
@@ -470,6 +496,8 @@ func (db *ContractDB) loadContractFile(path, pkg string) error {
 			switch {
 			case curW != nil:
 				curW.Props = append(curW.Props, ps...)
+			case curFW != nil:
+				curFW.Props = append(curFW.Props, ps...)
 			case curF != nil:
 				curF.Props = append(curF.Props, ps...)
 			case curC != nil:
@@ -500,6 +528,8 @@ func (db *ContractDB) loadContractFile(path, pkg string) error {
 				curLoop.Invariants = append(curLoop.Invariants, c)
 			case curF != nil && kw == "decreases" && curLoop != nil:
 				curLoop.Decreases = c
+			case curFW != nil && kw == "requires":
+				curFW.Requires = append(curFW.Requires, c)
 			case curC != nil && kw == "requires":
 				curC.Requires = append(curC.Requires, c)
 			case curC != nil && kw == "where":
@@ -684,6 +714,9 @@ func (db *ContractDB) loadContractFile(path, pkg string) error {
 			if curC != nil {
 				curC.In = append(curC.In, splitNames(rest)...)
 			}
+			if curFW != nil {
+				curFW.In = append(curFW.In, splitNames(rest)...)
+			}
 		case "notin":
 			if curC != nil {
 				curC.NotIn = append(curC.NotIn, splitNames(rest)...)
@@ -691,6 +724,9 @@ func (db *ContractDB) loadContractFile(path, pkg string) error {
 		case "name":
 			if curC != nil {
 				curC.Name = rest
+			}
+			if curFW != nil {
+				curFW.Name = rest
 			}
 		case "infunc":
 			// restrict a call-site contract to call sites inside functions whose name matches
@@ -700,6 +736,13 @@ func (db *ContractDB) loadContractFile(path, pkg string) error {
 					return fmt.Errorf("%s: %v", pos, err)
 				}
 				curC.InFunc = re
+			}
+			if curFW != nil {
+				re, err := regexp.Compile(rest)
+				if err != nil {
+					return fmt.Errorf("%s: %v", pos, err)
+				}
+				curFW.InFunc = re
 			}
 		default:
 			return fmt.Errorf("%s: unknown keyword %q", pos, kw)
@@ -754,7 +797,7 @@ func (db *ContractDB) loadContractFile(path, pkg string) error {
 	// package are skipped (at least one must exist).
 	isHeader := func(t string) bool {
 		switch strings.Fields(t)[0] {
-		case "func", "extern", "callsite", "lemma", "monitor", "ghost", "ufun", "axiom", "writers":
+		case "func", "extern", "callsite", "lemma", "monitor", "ghost", "ufun", "axiom", "writers", "fieldwrite":
 			return true
 		}
 		return false
@@ -895,4 +938,32 @@ func loadContracts(p *Prog, specDir string) (*ContractDB, error) {
 		}
 	}
 	return db, nil
+}
+
+// replaceDollarOutsideStrings turns the ghost sigil $ into the identifier prefix G_ everywhere
+// except inside string and rune literals.
+func replaceDollarOutsideStrings(text string) string {
+	var b strings.Builder
+	var quote byte
+	for i := 0; i < len(text); i++ {
+		c := text[i]
+		switch {
+		case quote != 0:
+			b.WriteByte(c)
+			if c == '\\' && quote != '`' && i+1 < len(text) {
+				i++
+				b.WriteByte(text[i])
+			} else if c == quote {
+				quote = 0
+			}
+		case c == '"' || c == '`' || c == '\'':
+			quote = c
+			b.WriteByte(c)
+		case c == '$':
+			b.WriteString("G_")
+		default:
+			b.WriteByte(c)
+		}
+	}
+	return b.String()
 }
